@@ -1187,10 +1187,22 @@ var ruleVMValues = &Rule{
 	Run:   runVMValues,
 }
 
-func runVMValues(c *Ctx, r *Reporter) {
+var ruleVMFresh = &Rule{
+	ID:    "R-VMFRESH",
+	Doc:   "every array the VM builds gets freshly allocated backing storage: concatenation, repetition and slicing never alias an operand",
+	Floor: 2,
+	Run:   func(c *Ctx, r *Reporter) { runVMValuesParts(c, r, true, false) },
+}
+
+func runVMValues(c *Ctx, r *Reporter) { runVMValuesParts(c, r, true, true) }
+
+func runVMValuesParts(c *Ctx, r *Reporter, fresh, rest bool) {
 	p, pkg := bytecodePkg(c, r)
 	if pkg == nil {
 		return
+	}
+	if !fresh {
+		goto restPart
 	}
 	// (1) fresh backing storage
 	for _, fd := range Funcs(pkg) {
@@ -1227,6 +1239,10 @@ func runVMValues(c *Ctx, r *Reporter) {
 				r.Check(okF, construct, p.Rel(instrPos(a)), "the new array has backing storage of its own", "a new array value is built on storage that may belong to an operand (e.g. append(left.Elements, …)): a later index assignment through one array shows up in the other, unlike in the evaluator where concatenation/slicing/repetition return fresh containers")
 			}
 		}
+	}
+restPart:
+	if !rest {
+		return
 	}
 	// (2) lost updates on by-value copies
 	for _, fd := range Funcs(pkg) {
